@@ -6,7 +6,9 @@ US = {'re_match': 10, 'bcmp': 24, 'strlen': 24, 'memcmp': 24, 'verif_mem': 70}
 HARNESSES = {'c04_span': dict(src='c05_tracer.cc', defines=['PARENT_MODE=0', 'OTEL_INTERNAL_LOG_LEVEL=0'], overrides=TS_OVERRIDES,
              models=TS_MODELS + ['libc.c', 'cxxrt.c', 'stdstring.c', 'single_threaded.c', 'pthread_clock.c'], gen_models=gen_regex_tables, ir2c_flags=['--new-array-max', '64'], model_defines=['VERIF_NEW_ARRAY_MAX=64'])}
 QUERIES = [dict(name='span_ops_before_after_end', harness='c04_span', entry='h_span_ops', unwind=18, unwindset=US, rec_unwind=3, timeout=1500,
-                shape='4 symbolic operations from {SetAttribute, AddEvent, SetStatus, UpdateName, End} on a recording span, then destruction')]
+                shape='4 symbolic operations from {SetAttribute, AddEvent, SetStatus, UpdateName, End} on a recording span, then destruction'),
+           dict(name='dropped_span_inert', harness='c04_span', entry='h_span_ops_dropped', unwind=18, unwindset=US, rec_unwind=3, timeout=1500,
+                shape='3 symbolic operations on a span the sampler dropped, then destruction')]
 BOUNDS = ['4 operations per span, one processor (mock) and mock recordable']
 OUTSIDE = ['SpanData / attribute map contents and ownership of caller buffers (std::unordered_map of variants: not encoded yet)', 'MultiRecordable fan-out', 'several threads on one span (mutex discipline only through the self-deadlock model)']
 ASSUMPTIONS = ['pthread mutex = owner flag', 'clocks arbitrary non-decreasing']
